@@ -16,6 +16,46 @@ PROPS = {
             'secp256k1 BigUint fields; sqrt / kth_root (BigUint)',
         ],
     ),
+    'C12': dict(
+        title='Merkle commitments open only to the committed leaf at the committed position',
+        design_ref='DESIGN.md section 4 / C12',
+        vspecs=['contracts/C12/merkle_verify.vspec'],
+        level_text='Unbounded deductive proof (Verus/Z3), over an uninterpreted hasher, that the real verify_batch_merkle_proof_to_cap / '
+                   'verify_merkle_proof_to_cap return Ok exactly when the textbook path fold of the leaf digest with the siblings, directed by the '
+                   'index bits, equals the cap entry addressed by the remaining index bits; all indexing and the height countdown are proved panic-free '
+                   'under the stated shape preconditions.',
+        level_note='Trusted: Verus+Z3; hasher functions uninterpreted (binding itself is the collision-resistance argument, outside the family); '
+                   'Vec/slice std specs. Not covered: MerkleTree::new / fill_subtree (MaybeUninit + rayon), batch trees, thread schedules.',
+        remainder=['MerkleTree::new, fill_subtree, fill_digests_buf (MaybeUninit, split_at_mut, rayon join): outside the Verus subset',
+                   'thread-schedule clause of the property: no thread model in the verifier',
+                   'batch_merkle_tree.rs'],
+    ),
+    'C05': dict(
+        title='FRI opening proofs attest only true evaluations of low-degree polynomials',
+        design_ref='DESIGN.md section 4 / C05',
+        vspecs=['contracts/C05/fri_verifier.vspec', 'contracts/C18/fri_shape.vspec', 'contracts/C12/merkle_verify.vspec'],
+        level_text='Unbounded deductive proof (Verus/Z3) of the verifier check skeleton: verify_fri_proof returns Ok only if the shape is valid, the '
+                   'proof-of-work response has the required leading zeros, the number of query rounds equals the configured one, and for EVERY '
+                   'query round: every initial-oracle Merkle path, the first-layer consistency, every per-layer fold consistency with the right beta, '
+                   'every commit-phase Merkle path at the right coset index and the final-polynomial evaluation were checked (fri_verifier_query_round: '
+                   'Ok <==> that conjunction). The algebra called by the skeleton is abstracted by uninterpreted functions.',
+        level_note='Trusted: Verus+Z3; compute_evaluation, fri_combine_initial, PolynomialCoeffs::eval, flatten, reverse_bits, from_os_and_alpha as '
+                   'uninterpreted functions; FriParams from common data (params_ok). FRI soundness over these checks is outside the family. '
+                   'Prover side and batch FRI not covered.',
+        remainder=['FRI soundness theorem (proximity gaps) over the checked conjunction', 'prover side: fri_committed_trees, fri_proof_of_work, prove_openings',
+                   'batch FRI verifier', 'reduction_arity_bits strategies'],
+    ),
+    'C18': dict(
+        title='Verifiers and proof decoders fail cleanly on malformed input',
+        design_ref='DESIGN.md section 4 / C18',
+        vspecs=['contracts/C18/fri_shape.vspec', 'contracts/C05/fri_verifier.vspec', 'contracts/C12/merkle_verify.vspec', 'contracts/C15/util_log2.vspec'],
+        level_text='Unbounded deductive proof (Verus/Z3) that, with NO precondition on the proof value beyond its Rust type, FRI shape validation and the '
+                   'FRI verifier reach no failing index, slice, subtraction, shift, unwrap or assertion: every such operation in the extracted '
+                   'bodies is a discharged obligation, and shape validation is the only place allowed to establish length facts.',
+        level_note='Trusted: Verus+Z3; parameters from the common data satisfy params_ok/instances_ok; unverified callees (T10) assumed panic-free under '
+                   'their stated preconditions. Not covered yet: compressed proofs, serde decoding, STARK entry points.',
+        remainder=['verify_compressed / decompress (HashMap keyed by proof data)', 'byte decoders (util/serialization)', 'starky verifier'],
+    ),
 }
 
 NOT_APPLICABLE = {
